@@ -52,7 +52,7 @@ class CommonSubexpressionEliminationPass(ir.passes.InPlacePass):
         existing_node_info_to_the_node: dict[
             tuple[
                 ir.OperatorIdentifier,
-                int,  # len(outputs)
+                tuple[bool, ...],  # which outputs are omitted
                 tuple[int, ...],  # input ids
                 tuple[tuple[str, object], ...],  # attributes
             ],
@@ -117,7 +117,8 @@ class CommonSubexpressionEliminationPass(ir.passes.InPlacePass):
 
             node_info = (
                 node.op_identifier(),
-                len(node.outputs),
+                # Nodes that omit different optional outputs (empty name) are not interchangeable
+                tuple(output.name == "" for output in node.outputs),
                 tuple(id(input) for input in node.inputs),
                 tuple(sorted(attributes.items())),
             )
